@@ -192,13 +192,23 @@ theorem packCell_spec (fl : Flavor) (k : Kind) {n : Nat} (hn : n < 2 ^ 27) (X : 
 /-- the chunk loop of ref_part_bin_ugrid_cell from cell `r` on, for every chunk size ≥ 1: the remaining cells of the
     section, whatever the chunking.  `pre`/`mid`/`post` are the bytes before the connectivity rows, between them and
     the tags, and after. -/
-theorem partCellLoop_spec (fl : Flavor) (k : Kind) {n : Nat} (hn : n < 2 ^ 27) (cs : List (List Int))
+theorem partIndexOk_of_cellOk {k : Kind} {n : Nat} {X : List (List Int)} (h : ∀ c ∈ X, cellOk k n c = true) :
+    X.all (partIndexOk k (n : Int)) = true := by
+  rw [List.all_eq_true]
+  intro c hc
+  unfold partIndexOk
+  rw [List.all_eq_true]
+  intro g hg
+  have := ((cellOk_iff k n c).1 (h c hc)).2.1 g hg
+  simp; omega
+
+theorem partCellLoop_spec (cfg : Cfg) (fl : Flavor) (k : Kind) {n : Nat} (hn : n < 2 ^ 27) (cs : List (List Int))
     (hcs : ∀ c ∈ cs, cellOk k n c = true) (pre mid post : Bytes) (co fo : Int)
     (hco : co = (pre.length : Int))
     (hfo : k.hasTag = true → fo = ((pre ++ secConn fl k cs ++ mid).length : Int))
     (chunk : Nat) (hch : 1 ≤ chunk) (fuel r : Nat) (hr : r ≤ cs.length) (hf : cs.length - r ≤ fuel) :
-    partCellLoop fl (pre ++ secConn fl k cs ++ mid ++ (if k.hasTag then secTags fl k cs else []) ++ post) k co fo chunk
-      fuel cs.length r = .ok (cs.drop r) := by
+    partCellLoop cfg fl (pre ++ secConn fl k cs ++ mid ++ (if k.hasTag then secTags fl k cs else []) ++ post) k (n : Int)
+      co fo chunk fuel cs.length r = .ok (cs.drop r) := by
   induction fuel generalizing r with
   | zero =>
     have : r = cs.length := by omega
@@ -252,6 +262,9 @@ theorem partCellLoop_spec (fl : Flavor) (k : Kind) {n : Nat} (hn : n < 2 ^ 27) (
       rw [hXlen] at hpk
       rw [hpk]
       simp only
+      have hidx : ¬ (cfg.checkIndex = true ∧ X.all (partIndexOk k (n : Int)) = false) := by
+        rw [partIndexOk_of_cellOk hXok]; simp
+      rw [if_neg hidx]
       rw [ih (r + s) hsle (by omega)]
       simp only
       rw [hXdef, ← List.drop_drop, List.take_append_drop]
